@@ -16,7 +16,7 @@ from .. import configs as C
 from .. import runner as R
 from ..golden import StreamRunner
 
-RULE = ("cases = histories of create(config) / advance(object, k actions) / observe(object) / poke_memo(fn, n, s) / finish(object) over up to 6 live objects; "
+RULE = ("cases = histories of create(config) / create_same / create_variant (sibling with ONE parameter changed) / advance(object, k actions) / observe(object) / poke_memo(fn, n, s) / finish(object) over up to 6 live objects; "
         "oracle = stream produced for the same config in a fresh interpreter; non-trivial = history in which two objects whose classes share module-level state "
         "(two of Multistage/Mixed/TwoLevel, or two of the Revolve family) are alive at once and their advancement is interleaved; distinct = distinct operation sequence")
 
@@ -75,6 +75,41 @@ def golden_once(cfg):
 POKES = ("optimal_steps_binomial", "optimal_extra_steps", "optimal_steps_mixed", "mixed_step_memoization", "n_advance", "revolve_seq", "hrevolve_seq")
 
 
+def siblings(cfg):
+    """All valid configs that differ from cfg in exactly one parameter: [(field, config)]."""
+    c0 = dict(cfg)
+    opts = []
+    if "traj" in c0:
+        opts.append(("traj", "revolve" if c0["traj"] == "maximum" else "maximum"))
+    if "storage" in c0:
+        opts.append(("storage", "RAM" if c0["storage"] == "DISK" else "DISK"))
+    if "move" in c0:
+        opts.append(("move", not c0["move"]))
+    for k, lo in (("s", 1), ("d", 0), ("ram", 0), ("disk", 0), ("b", 0), ("period", 1)):
+        if k in c0:
+            opts.append((k, c0[k] + 1))
+            if c0[k] - 1 >= lo:
+                opts.append((k, c0[k] - 1))
+    opts.append(("n", c0["n"] + 1))
+    if c0["n"] > 1:
+        opts.append(("n", c0["n"] - 1))
+    if "c8" in c0:
+        for i in range(4):
+            v = list(c0["c8"])
+            v[i] = v[i] * 2 if v[i] else 8
+            opts.append(("c8", v))
+    out = []
+    for k, v in opts:
+        c = dict(c0)
+        c[k] = v
+        if c.get("cls") == "SingleDisk" and c.get("move"):
+            c["passes"] = 1
+        if not C.valid(c):
+            continue
+        out.append((k, C.tame_period(c)))
+    return out
+
+
 class World:
     """System under test: several live schedules in ONE process. Runs in a
     child forked per history from a pristine worker, so a history is a pure
@@ -93,12 +128,32 @@ class World:
         return [i for i, o in enumerate(self.objs) if not o[2]]
 
     def create(self, cfg):
-        self.objs.append([cfg, StreamRunner(cfg), False])
+        try:
+            r = StreamRunner(cfg)
+        except Exception:
+            return          # a constructor that raises is C17's subject, not C15's
+        self.objs.append([cfg, r, False])
         self.max_live = max(self.max_live, len(self.live()))
 
     def create_same(self, sel):
         if self.objs:
             self.create(dict(self.objs[sel % len(self.objs)][0]))
+
+    def create_variant(self, sel, field):
+        """A sibling of an existing object: same class, ONE parameter changed
+        (the shape that exposes memo tables keyed on too little)."""
+        if not self.objs:
+            return
+        opts = siblings(self.objs[sel % len(self.objs)][0])
+        cat = [o for o in opts if o[0] in ("traj", "storage", "move")]
+        num = [o for o in opts if o[0] not in ("traj", "storage", "move")]
+        if field % 2 == 0 and cat:       # half of the siblings differ in a categorical parameter only
+            c = cat[(field // 2) % len(cat)][1]
+        elif num:
+            c = num[(field // 2) % len(num)][1]
+        else:
+            return
+        self.create(c)
 
     def _pick(self, sel):
         lv = self.live()
@@ -183,6 +238,8 @@ class World:
             self.create(op[1])
         elif k == "create_same":
             self.create_same(op[1])
+        elif k == "create_variant":
+            self.create_variant(op[1], op[2])
         elif k == "adv":
             self.advance(op[1], op[2])
         elif k == "obs":
@@ -303,6 +360,9 @@ def config_strategy():
                 c[k] = min(c[k], 6)
         if c["cls"] == "Multistage" and c["n"] > 1 and c["ram"] + c["disk"] == 0:
             c["ram"] = 1
+        if c["cls"] == "Multistage" and c["n"] > 2 and c["n"] % 3 and (c["ram"] == 0 or c["disk"] == 0):
+            # two thirds of the Multistage objects take the RAM+DISK path (allocation dry run)
+            c["ram"], c["disk"] = max(c["ram"], 1), max(c["disk"], 1)
         if c["cls"] == "PeriodicDiskRevolve":
             c = C.tame_period(c)
         return c
@@ -347,6 +407,11 @@ def make_machine():
         @rule(sel=st.integers(0, 5))
         def create_same(self, sel):
             self._do("create_same", sel)
+
+        @precondition(lambda self: self.w.state["live"] < 6 and self.w.state["objs"] > 0)
+        @rule(sel=st.integers(0, 5), field=st.integers(0, 15))
+        def create_variant(self, sel, field):
+            self._do("create_variant", sel, field)
 
         @rule(sel=st.integers(0, 5), count=st.integers(1, 30))
         def advance(self, sel, count):
@@ -450,6 +515,51 @@ def minimize_ops(ops, pred, budget=300, golden_fn=None):
     return cur
 
 
+def _pair_sweep(job):
+    """Structured generator: every ordered sibling pair (A, B) of a small box, in both
+    orders of use, each pair in its own forked child; B's (and A's) stream vs. golden."""
+    pairs = job
+    g = Golden()
+    out = []
+    try:
+        for A, B in pairs:
+            for ops in ([["create", A], ["adv", 0, 1000000], ["create", B], ["adv", 0, 1000000]],
+                        [["create", A], ["create", B], ["adv", 1, 1000000], ["adv", 0, 1000000]]):
+                r = replay_ops(ops, g.get)
+                if r is not None:
+                    out.append({"ops": ops, "pred": r[0], "detail": r[1], "variant": r[2]})
+                    break
+    finally:
+        g.close()
+    return {"pairs": len(pairs), "fails": out}
+
+
+def pair_box(tier):
+    N = 6 if tier == "quick" else 9
+    base = []
+    for n in range(2, N + 1):
+        for ram in range(0, 3):
+            for disk in range(0, 3):
+                if ram + disk:
+                    for tr in ("maximum", "revolve"):
+                        base.append({"cls": "Multistage", "n": n, "ram": ram, "disk": disk, "traj": tr, "passes": 1})
+        for sx in range(1, 4):
+            for stg in ("RAM", "DISK"):
+                base.append({"cls": "Mixed", "n": n, "s": sx, "storage": stg, "passes": 1})
+            for cls in ("Revolve", "DiskRevolve", "PeriodicDiskRevolve"):
+                base.append({"cls": cls, "n": n, "s": sx, "c8": [8, 8, 16, 16], "passes": 1})
+            for d in (0, 1, 2):
+                base.append({"cls": "HRevolve", "n": n, "s": sx, "d": d, "c8": [8, 16, 16, 4], "passes": 1})
+        for p in (1, 2, 3):
+            for b in (0, 1, 2):
+                base.append({"cls": "TwoLevel", "period": p, "b": b, "storage": "RAM" if (n + p + b) % 2 else "DISK", "traj": "maximum", "n": n, "passes": 1})
+    pairs = []
+    for A in base:
+        for _, B in siblings(A):
+            pairs.append((A, B))
+    return pairs
+
+
 def check_witness(data, show=False):
     w = data["witness"]
     if show:
@@ -470,7 +580,7 @@ def run(prop, args):
             rep.add_violation(b, w, d, kind=k)
         return rep.finish()
     tier = args.tier
-    examples, steps = (40, 40) if tier == "quick" else (600, 80)
+    examples, steps = (80, 40) if tier == "quick" else (800, 80)
     res = R.pmap(_shard, [(tier, args.seed, k, examples, steps) for k in range(16)], chunksize=1)
     compared = 0
     for part in res:
@@ -487,6 +597,20 @@ def run(prop, args):
         f = part["fail"]
         if f is not None:
             rep.add_violation((f["variant"], f["pred"]), {"ops": f["ops"]}, f["detail"], kind="history")
+    # structured sibling-pair sweep (caches keyed on too little, in-place mutation of shared tables)
+    pairs = pair_box(tier)
+    pres = R.pmap(_pair_sweep, R.chunks(pairs, 64), chunksize=1)
+    npairs = 0
+    for part in pres:
+        npairs += part["pairs"]
+        for f in part["fails"]:
+            rep.add_violation((f["variant"], f["pred"]), {"ops": f["ops"]}, f["detail"], kind="history")
+    rep.evaluations += npairs
+    for A, B in pairs:
+        if (A["cls"] in SHARE_A or A["cls"] in SHARE_B):
+            rep.nontrivial.add("pair:" + C.key(A) + "|" + C.key(B))
+    rep.exhaustive = [{"box": "every ordered pair (A, B) of configs differing in exactly one parameter, n<=%d, units<=3, both orders of use, each pair in a pristine child" % (6 if tier == "quick" else 9),
+                       "cases": npairs, "exhaustive": True}]
     R.run_regress(rep, check_witness)
 
     def shrink(b, w):
